@@ -13,12 +13,12 @@ open CprocVerif.LowerArith CprocVerif.LowerMach CprocVerif.LowerMem
 theorem addBlocks_zero (c : SCtx) : c.addBlocks 0 = c := rfl
 
 section
-variable (T : Stat) {s : Store} {out : CSem2.Outcome} {lp : Bool} {brk cont : String} {c : SCtx}
+variable (T : Stat) {s : Store} {out : CSem2.Outcome} {lp : Bool × Bool} {brk cont : String} {c : SCtx}
   {nd nd' : Nat} {pre post : List Item} {env : Env} {M : Mem}
 
 theorem sim_while (n : Nat) (ih : ∀ m, m ≤ n → SimStmt T m) (e : Expr) (b : Stmt)
     (hex : exec T.S.cs (n + 1) s (.while_ e b) = some out) (hfr : frag (.while_ e b) = true)
-    (hwt : Stmt.wt T.vtys T.ret lp nd (.while_ e b) = some nd') (hp : Pos T c nd pre)
+    (hwt : Stmt.wt T.vtys T.ret lp.1 lp.2 nd (.while_ e b) = some nd') (hp : Pos T c nd pre)
     (hext : Ext T (funcstmt T.S.cs brk cont (.while_ e b) c).ctx)
     (hits : T.S.its = pre ++ (funcstmt T.S.cs brk cont (.while_ e b) c).items ++ post)
     (inv : SInv T.S.cs T.σ T.vtys s env M) :
@@ -28,7 +28,8 @@ theorem sim_while (n : Nat) (ih : ∀ m, m ≤ n → SimStmt T m) (e : Expr) (b 
   simp only [Stmt.wt] at hwt
   split at hwt
   · rename_i hwe
-    obtain ⟨hnb, hcb⟩ := wt_noDead _ _ b _ _ _ hwt
+    have hwe := hwe.1
+    obtain ⟨hnb, hcb⟩ := wt_noDead _ _ b _ _ _ _ hwt
     have hj1 : ((c.addBlocks 3).atLabel (lblName "while_cond" (c.blockid + 1))).jump = none := rfl
     have hj2 : (((c.addBlocks 3).atLabel (lblName "while_cond" (c.blockid + 1))).upd
       (exprOut T.S.cs ((c.addBlocks 3).atLabel (lblName "while_cond" (c.blockid + 1))) e).ctx).jump = none := rfl
@@ -151,11 +152,11 @@ theorem sim_while (n : Nat) (ih : ∀ m, m ≤ n → SimStmt T m) (e : Expr) (b 
           | none => rw [heb] at hex; cases hex
           | some ob' =>
             rw [heb] at hex
-            have pb := ih (k + 1) hk b s ob' true (lblName "while_join" (c.blockid + 3))
+            have pb := ih (k + 1) hk b s ob' (true, true) (lblName "while_join" (c.blockid + 3))
               (lblName "while_cond" (c.blockid + 1)) _ nd nd' _ _ env1 M heb hfr hwt hpb
-              (by rw [hob]; exact hextb) (by rw [hob]; exact hitsbody) (fun _ => ⟨hcj, hcc⟩) inv1
+              (by rw [hob]; exact hextb) (by rw [hob]; exact hitsbody) ⟨fun _ => hcj, fun _ => hcc⟩ inv1
             rw [hob] at pb
-            have cj := pb.closeJmp hits2 (fun _ => ⟨hcj, hcc⟩) hcc
+            have cj := pb.closeJmp hits2 ⟨fun _ => hcj, fun _ => hcc⟩ hcc
             cases ob' with
             | normal s' =>
               simp only at hex
